@@ -252,7 +252,9 @@ theorem rep_one (t : Text) : rep t 1 = t := by
 theorem yank_text (s : St) (n : Int) (h : (getData s.ring).ty = .chars) :
     (yank s n).buf.text = reinsert s.buf.text s.buf.cur (rep (getData s.ring).text n) ∧
     (yank s n).ring = s.ring ∧ (yank s n).dbp = some s.buf := by
-  simp [yank, pasteSt, pasteBuf, pasteRaw, h, reinsert, Buf.before, Buf.after]
+  by_cases hn : n ≤ 0
+  · simp [yank, pasteSt, pasteBuf, pasteRaw_nonpos _ _ _ _ hn, rep_nonpos _ _ hn, reinsert]
+  · simp [yank, pasteSt, pasteBuf, pasteRaw, hn, h, reinsert, Buf.before, Buf.after]
 
 /-- **yank_restores.**  In a `Restorable orig` state a plain yank gives back `orig`. -/
 theorem yank_restores (orig : Text) (s : St) (h : Restorable orig s) : (yank s 1).buf.text = orig := by
@@ -537,22 +539,20 @@ example :
 
 theorem pasteBuf_chars_wf (b : Buf) (h : WF b) (d : Clip) (hty : d.ty = .chars) (n : Int) :
     WF (pasteBuf b d .emacs n) := by
+  by_cases hn0 : n ≤ 0
+  · unfold WF at h ⊢
+    simp only [pasteBuf, pasteRaw_nonpos _ _ _ _ hn0, Int.toNat_natCast]; exact h
   unfold WF at h ⊢
   unfold pasteBuf pasteRaw
-  rw [hty]
+  rw [if_neg hn0, hty]
   simp only [Buf.before, Buf.after, rep]
   simp only [reduceCtorEq, if_false]
   simp only [List.length_append, List.length_take, List.length_drop, repeatText_length]
-  by_cases hn : 0 ≤ n
-  · have : ((b.cur : Int) + (d.text.length : Int) * n).toNat = b.cur + d.text.length * n.toNat := by
-      obtain ⟨m, rfl⟩ := Int.eq_ofNat_of_zero_le hn
-      simp; norm_cast
-    rw [this]; omega
-  · have hn0 : n.toNat = 0 := by omega
-    have hle : ((b.cur : Int) + (d.text.length : Int) * n).toNat ≤ b.cur := by
-      have : (d.text.length : Int) * n ≤ 0 := Int.mul_nonpos_of_nonneg_of_nonpos (by omega) (by omega)
-      omega
-    rw [hn0]; omega
+  have hn : 0 ≤ n := by omega
+  have : ((b.cur : Int) + (d.text.length : Int) * n).toNat = b.cur + d.text.length * n.toNat := by
+    obtain ⟨m, rfl⟩ := Int.eq_ofNat_of_zero_le hn
+    simp; norm_cast
+  rw [this]; omega
 
 /-- Invariant of every Emacs session: cursors inside their texts, only CHARACTERS data on the
     ring, ring not longer than `max_size`. -/
